@@ -41,7 +41,7 @@ Accepted (anything else: `Untranslatable`, reported in the JSON summary, stub th
   expressions integers, locals, usize::MAX, + - * / % (checked), comparisons, ! && ||, min / max, Order::X,
               self.order, self.shape, self.size() (while it is `self.data.len()`), VEC.len(), VEC.is_empty(),
               p.into() (p: S, S: Into<Shape>), s.try_to_axis_shape(o), s.size(), a.size() / major() / minor(),
-              Self::check_size(n) / Matrix::<T>::check_size(n), AxisShape::default() (while `AxisShape` derives
+              Self::check_size(n) / Matrix::<T>::check_size(n), AxisShape::default() (also spelled `Default::default()` on the right of `self.shape =`; while `AxisShape` derives
               `Default` over `usize` fields `major`, `minor` in src/shape.rs)
 Mapped by name to primitives of the hand-written model, arguments from the text:
               NAME                                                NAME_fx
@@ -510,7 +510,11 @@ class St14:
             if k == "assign":
                 if st[1] != ("field", ("path", ["self"]), "shape") or self.dropctx is not None:
                     raise Untranslatable("assignment to something that is not `self.shape`")
-                lines = []; v, t = self.ex(st[2], lines)
+                rhs = st[2]
+                # `self.shape = Default::default()`: the field's type decides the impl (`AxisShape`)
+                if rhs[0] == "call" and rhs[1] == ["Default", "default"] and not rhs[2]:
+                    rhs = ("call", ["AxisShape", "default"], [])
+                lines = []; v, t = self.ex(rhs, lines)
                 if t != ASHAPE: raise Untranslatable("self.shape = …: not an axis shape")
                 out += [pad + l for l in lines]
                 out.append(pad + (f"let w : Effects.World α := {{ w with mat := {{ w.mat with shape := {v} }} }}" if self.fx
